@@ -1,5 +1,5 @@
 """Registry: property id -> rule set, level and explanations."""
-from . import p_symbols, p_rs, p_charset, p_modes, p_macro, p_plan, p_codec, p_wire, p_bitmap, p_place, p_panic
+from . import p_symbols, p_rs, p_charset, p_modes, p_macro, p_plan, p_codec, p_wire, p_bitmap, p_place, p_panic, p_b256
 
 PROPS = {}
 
@@ -120,7 +120,7 @@ PROPS["C03"] = {
 
 PROPS["C18"] = {
     "level": "other",
-    "rules": [p_plan.sync, p_plan.plan_mono, p_modes.dom_mode, p_plan.prov_plan, p_modes.fld_enc],
+    "rules": [p_plan.sync, p_plan.plan_mono, p_modes.dom_mode, p_plan.prov_plan, p_modes.fld_enc, p_b256.b256_sync],
     "explanation": "Clause-level claim. The agreement between the planner's end-of-data prices and the encoders' handle_end behaviour "
                    "(and hence `the latches in the output are exactly the plan's modes` and `never a larger symbol than predicted`) is "
                    "arithmetic in two independently written state machines and is NOT decided (known: an EDIFACT run followed by exactly "
@@ -150,7 +150,7 @@ PROPS["C19"] = {
 
 PROPS["C04"] = {
     "level": "other",
-    "rules": [p_codec.tab_dec, p_codec.dec_thresh, p_codec.dec_mode, p_codec.tab_cw],
+    "rules": [p_codec.tab_dec, p_codec.dec_thresh, p_codec.dec_mode, p_codec.tab_cw, p_b256.tab_b256, p_b256.dec_b256],
     "explanation": "Clause-level claim. Decided: the decoder's per-codeword decision tables - ASCII (256 codewords x upper-shift state), "
                    "C40 and Text (4 shift sets x 256 values x upper-shift state, with the table constants decode_parts passes for each "
                    "mode), X12 values, EDIFACT six-bit values, the 16-bit pair unpacking - equal ISO/IEC 16022 Table 2 / Annex C / 5.2.7 / "
@@ -165,7 +165,7 @@ PROPS["C04"] = {
 
 PROPS["C02"] = {
     "level": "other",
-    "rules": [p_codec.tab_cw, p_codec.tab_sets, p_wire.prov_sym, p_wire.pad_path, p_rs.prov_rsenc, p_symbols.tab_sym],
+    "rules": [p_codec.tab_cw, p_codec.tab_sets, p_wire.prov_sym, p_wire.pad_path, p_b256.tab_b256, p_rs.prov_rsenc, p_symbols.tab_sym],
     "explanation": "Clause-level claim. Decided: every codeword constant equals ISO/IEC 16022 Table 2; the encoder-side C40/Text/X12/"
                    "EDIFACT/ASCII character tables (extracted as per-byte decision tables) equal Annex C / 5.2.7 / 5.2.8 transcribed "
                    "independently of the decoder, with the 1600/40/1 packing; the returned symbol is symbol_for(0) = the first symbol of "
@@ -180,7 +180,7 @@ PROPS["C02"] = {
 
 PROPS["C01"] = {
     "level": "other",
-    "rules": [p_macro.fld_input, p_codec.tab_codec, p_wire.prov_pipe, p_codec.dec_mode],
+    "rules": [p_macro.fld_input, p_codec.tab_codec, p_b256.tab_b256, p_wire.prov_pipe, p_codec.dec_mode],
     "explanation": "Clause-level claim; the inverse law itself (equality of byte strings over all inputs and configurations) is not "
                    "decidable statically. Three structural necessary conditions are decided: FLD-INPUT - the encoder's read cursor "
                    "`.data` always stays a suffix of `.input` (every writer enumerated crate-wide), which backup() relies on; TAB-CODEC - "
@@ -196,7 +196,7 @@ PROPS["C01"] = {
 PROPS["C11"] = {
     "level": "other",
     "engine": "dmx-facts + panic-residue",
-    "rules": [p_wire.dom_errcls, p_wire.gate_hint, p_macro.dom_macro, p_plan.sync, p_charset.tab_eci, p_panic.residue_rule("encode"), p_panic.invariants],
+    "rules": [p_wire.dom_errcls, p_wire.gate_hint, p_macro.dom_macro, p_plan.sync, p_charset.tab_eci, p_b256.b256_sync, p_panic.residue_rule("encode"), p_panic.invariants],
     "explanation": "Clause-level claim. Decided: DOM-ERRCLS - the error is SymbolListEmpty iff the list is empty (its only constructions are "
                    "on the true edge of symbol_list.is_empty(), which is tested first, and in the reservation-hint wrapper, which GATE-HINT "
                    "shows is Some for every non-empty list); DOM-MACRO - the macro re-slice cannot panic for short envelopes; SYNC - planner "
